@@ -14,7 +14,7 @@ import ast
 
 from .. import lin, nodewalk, paths, storewalk, tables
 from ..model import AnalysisError, Project, self_attr, walk_no_nested
-from ..report import Result
+from ..report import Result, ctx_of
 from ..tables import LEVEL_UPDATER, TRIGGERS, MUT
 from .common import site, src, sum_lin, status_str
 from . import c03
@@ -41,6 +41,7 @@ def run(p: Project, tier: str) -> Result:
                      'the filter store keeps no occupancy statistic (nothing to check)']
     ws = storewalk.walks(p, assume_inv=('I1',))
     for w in ws:
+        r.ctx = ctx_of(w)
         r.paths += w.npaths
         if w.store.has_level:
             check_level_pairing(p, w, r)
@@ -57,6 +58,7 @@ def run(p: Project, tier: str) -> Result:
     sub = Result('C18')
     nws = nodewalk.walks(p)
     for w in nws:
+        r.ctx = ctx_of(w)
         r.paths += w.npaths
         for root, ps in w.roots.items():
             c03.check_root(sub, w, root, w.root_funcs[root], ps, [], {})
@@ -83,6 +85,7 @@ def check_counter_instant(nws, r):
     r.rule('C18.R8', 'no suspension point between a counter increment and the event it counts', 6)
     sites = {}
     for w in nws:
+        r.ctx = ctx_of(w)
         for root, ps in w.roots.items():
             fi = w.root_funcs[root]
             for pa in ps:
@@ -383,6 +386,7 @@ def check_edge_publication(p, r):
 
 def check_cycle_time(p, nws, r):
     for w in nws:
+        r.ctx = ctx_of(w)
         if w.ci.name != 'Sink':
             continue
         fi = w.root_funcs['behaviour']
